@@ -245,6 +245,22 @@ def check_update_value(old_src, new_src, leafvals, approved):
     return v == before
 
 
+def check_never_compared(old_src, leafvals, approved):
+    """a snapshot that is not used in this run (module level, test not selected): whatever is approved, the value
+    the argument evaluates to does not change (only `update` can apply, and update never changes the value)"""
+    ns = dict(SUPPORT_NS)
+    ns.update(leafvals)
+    world.reset(ns)
+    before = eval(old_src, dict(W.ns))
+    t = HEAD + f"s = snapshot({old_src})\n\n\ndef test_a():\n    pass\n"
+    r = world.core_session(t, approved)
+    v = world.snapshot_values(r.text)[0]
+    PathLog.record(f"never{old_src}{sorted(approved)}{r.text}", nontrivial=r.changed, sample={"unused_snapshot": old_src, "approved": sorted(approved), "rewritten": world.snapshot_arg_sources(r.text)})
+    if r.categories - {"update"}:
+        return False
+    return v == before
+
+
 GLB = {k: v for k, v in globals().items() if k.startswith("check_")}
 GLB["__name__"] = "harness.c05"
 
@@ -310,6 +326,12 @@ def conditions(tier):
             name = f"upd{i}_{subset_name(sub)}"
             conds.append(Cond(name, mkfn(name, [(x, "int") for x in names], body, GLB), timeout=600, group="update-value",
                               bounds=f"previous `{o}` (h = hand-written), observed `{n}`, only the update changes applied, session flags {sorted(sub)}"))
+    for i, (o, names) in enumerate([("[h0, c1]", ["h0", "c1"]), ("{1: [h0, c1], 2: c2}", ["h0", "c1", "c2"]), ("P(a=h0, b=5)", ["h0"]), ("(h0,)", ["h0"]), ("[[h0], (c1, h2)]", ["h0", "c1", "h2"]), ("h0", ["h0"])]):
+        for sub in ({"update"}, set(CATS), {"fix", "trim"}):
+            body = f"return check_never_compared({o!r}, {{{', '.join(f'{x!r}: {x}' for x in names)}}}, {sub!r})"
+            name = f"never_compared{i}_{subset_name(sub)}"
+            conds.append(Cond(name, mkfn(name, [(x, "int") for x in names], body, GLB), timeout=600, group="update-value",
+                              bounds=f"module-level snapshot `{o}` (h = hand-written) that no test uses in this run, approved {sorted(sub)}"))
     tw = mkfn("le_old_m2_twin", [("c0", "int"), ("x0", "int"), ("x1", "int")], "return check_minmax('<=', True, c0, [x0, x1], {'fix'})", GLB, post="not _")
     conds.append(Cond("le_old_m2_twin", tw, timeout=60, twin=True))
     tw = mkfn("gi_twin", [("c0", "int"), ("x0", "int")], "return check_getitem((1,), [c0], (1,), [x0], {'fix'})", GLB, post="not _")
